@@ -1159,13 +1159,16 @@ func (obj *Package) DefLambda(name string, lam *Lambda, fc func(args List) Objec
 
 // RegisterClass registers a class in the package
 func (obj *Package) RegisterClass(name string, c Class) {
+	name = strings.ToLower(name)
+	obj.mu.Lock()
 	if obj.classes == nil {
 		obj.classes = map[string]Class{}
 	}
-	name = strings.ToLower(name)
 	obj.classes[name] = c
+	users := append([]*Package{}, obj.Users...)
+	obj.mu.Unlock()
 
-	for _, up := range obj.Users {
+	for _, up := range users {
 		up.RegisterClass(name, c)
 	}
 	for _, h := range classHooks {
@@ -1180,20 +1183,24 @@ func (obj *Package) RegisterClass(name string, c Class) {
 
 // Find finds the named class.
 func (obj *Package) FindClass(name string) (c Class) {
+	obj.mu.Lock()
 	if obj.classes != nil {
 		if c = obj.classes[name]; c == nil {
 			c = obj.classes[strings.ToLower(name)]
 		}
 	}
+	obj.mu.Unlock()
 	return
 }
 
 // AllClasses returns list of all classes visible in the package.
 func (obj *Package) AllClasses() []Class {
+	obj.mu.Lock()
 	all := make([]Class, 0, len(obj.classes))
 	for _, c := range obj.classes {
 		all = append(all, c)
 	}
+	obj.mu.Unlock()
 	return all
 }
 
